@@ -202,6 +202,11 @@ def alphabet():
                   insert=[(None, [("BN", P, X), ("BN", Q, Y)])]))
     ops.append(Op("modify-fresh-bnode-duplicate-solutions-graph", "DELETE { ?x %s ?y } INSERT { GRAPH %s { [] %s ?x } } WHERE { { ?x %s ?y } UNION { ?x %s ?y } }" % (tt(P), tt(G1), tt(Q), tt(P), tt(P)),
                   "modify", where=WW, delete=[(None, [(X, P, Y)])], insert=[(G1, [("BN", Q, X)])], needs_dataset=True))
+    # a template without any variable is still instantiated once per solution: its blank nodes are fresh each time
+    ops.append(Op("insert-fresh-bnode-no-variable", "INSERT { _:n %s %s . _:n %s %s } WHERE { ?x %s ?y }" % (tt(P), tt(A), tt(Q), tt(A), tt(P)), "modify", where=W,
+                  insert=[(None, [("BN", P, A), ("BN", Q, A)])]))
+    ops.append(Op("with-insert-fresh-bnode-no-variable", "WITH %s INSERT { [] %s %s } WHERE { ?x %s ?y }" % (tt(G1), tt(Q), tt(A), tt(P)), "modify", where=W,
+                  insert=[(None, [("BN", Q, A)])], needs_dataset=True, **{"with": G1}))
     ops.append(Op("insert-graphvar", "INSERT { GRAPH ?g { ?x %s ?y } } WHERE { GRAPH ?g { ?x %s ?y } }" % (tt(Q), tt(P)), "modify", where=("graph", GV, W),
                   insert=[(GV, [(X, Q, Y)])], needs_dataset=True))
     ops.append(Op("insert-into-graph", "INSERT { GRAPH %s { ?x %s ?y } } WHERE { ?x %s ?y }" % (tt(G1), tt(P), tt(P)), "modify", where=W, insert=[(G1, [(X, P, Y)])], needs_dataset=True))
